@@ -57,6 +57,8 @@ pub struct Case {
     pub steps: Vec<Step>,
     pub front_end: FrontEnd,
     pub nounset: bool,
+    #[serde(default)]
+    pub via_entry: bool,
     pub cfg: SimConfig,
 }
 
@@ -213,7 +215,8 @@ impl C17 {
         };
         cfg.clock_advance_pm = *rng.pick(&[0u16, 0, 20, 100]);
         cfg.budget = 20_000;
-        Case { class, jobs, steps, front_end, nounset, cfg }
+        let via_entry = rng.below(5) == 0;
+        Case { class, jobs, steps, front_end, nounset, via_entry, cfg }
     }
 }
 
@@ -221,6 +224,7 @@ pub fn judge(case: &Case) -> Verdict {
     let script = render(case);
     let mut spec = RunSpec::new(script.clone(), case.front_end.clone(), case.cfg.clone());
     spec.needs_dir = true;
+    spec.via_entry = case.via_entry;
     let r = runner::run(&spec);
     let mut v = Verdict::default();
     v.hashes = vec![r.loghash];
